@@ -327,7 +327,10 @@ def build(P):
     def c15_cases(tier, seed):
         r = rng_for(seed, "C15")
         values = [('"plain"', "plain"), ('""', ""), ('" lead"', " lead"), ('"#x"', "#x"), ('"q\\"q"', 'q"q'), ("'c'", "c"), ("42", "42"), ("- 7", "-7"), ("TRUE", "TRUE"), ("FALSE", "FALSE"),
-                  ("14/3/2020", "14/3/2020"), ("2.5", "2.5"), ("1.0 / 3", "0.333333"), ("100.0", "100"), ("0.1234567", "0.123457"), ("1000000.0 * 1000000.0", "1000000000000")]
+                  ("14/3/2020", "14/3/2020"), ("2.5", "2.5"), ("1.0 / 3", "0.333333"), ("100.0", "100"), ("0.1234567", "0.123457"), ("1000000.0 * 1000000.0", "1000000000000"),
+                  # INTEGERs are written exactly, whatever their size; expressions and variables as well as literals
+                  ("9007199254740993", "9007199254740993"), ("1234567890123456789", "1234567890123456789"), ("9223372036854775807", "9223372036854775807"), ("- 9223372036854775807", "-9223372036854775807"),
+                  ("9007199254740992 + 1", "9007199254740993"), ("3037000499 * 3037000499", "9223372030926249001"), ("LENGTH(\"abc\")", "3"), ("7 DIV 2", "3"), ("7 / 2", "3.5"), ("'#'", "#"), ("\"a\" & 'b'", "ab")]
         sessions_max = 3 if tier == "thorough" else 2
         lines_max = 3 if tier == "thorough" else 2
         cases = []
@@ -353,6 +356,11 @@ def build(P):
                 i += 1
                 cases.append(Case(id="C15-h%d" % i, prog=("\n".join(L) + "\n").encode(), files={"t.txt": ("f", b"stale content\n")},
                                   meta=dict(units=["h%d" % i], expect="".join("[%s]\n" % t for t in exp) + "count %d\n" % len(exp))))
+        for vi_, (e, txt) in enumerate(values):
+            L = ["DECLARE held : INTEGER", "OPENFILE \"t.txt\" FOR WRITE", "WRITEFILE \"t.txt\", %s" % e, "WRITEFILE \"t.txt\", \"mid\"", "WRITEFILE \"t.txt\", %s" % e, "CLOSEFILE \"t.txt\"",
+                 "OPENFILE \"t.txt\" FOR READ", "n <- 0", "WHILE NOT EOF(\"t.txt\")", "READFILE \"t.txt\", x", "n <- n + 1", "OUTPUT \"[\", x, \"]\"", "ENDWHILE", "OUTPUT \"count \", n", "CLOSEFILE \"t.txt\""]
+            i += 1
+            cases.append(Case(id="C15-v%d" % vi_, prog=("\n".join(L) + "\n").encode(), meta=dict(units=["v%d" % vi_], expect="[%s]\n[mid]\n[%s]\ncount 3\n" % (txt, txt))))
         for ch in chunks(cases, 400):
             yield ("write-histories", ch)
         # pre-existing files with and without a final line break; blank lines; CRLF is data here
